@@ -494,6 +494,15 @@ func main() {
 	// before it deletes from this level (ord_compact_replace_delete above)
 	facts = append(facts, fact{"has_lcget_range_levels", "op", has("levels.go", "levelsController", "get", "for _, h := range s.levels {"), "levels.go:levelsController.get [for _, h := range s.levels]"})
 	facts = append(facts, fact{"has_appenditers_range_levels", "op", has("levels.go", "levelsController", "appendIterators", "for _, level := range s.levels {"), "levels.go:levelsController.appendIterators [for _, level := range s.levels]"})
+	// C17: the temporary MANIFEST-REWRITE file is opened with O_TRUNC (a leftover of a rewrite that
+	// crashed before its rename must not survive as a tail of the new MANIFEST: seed C17i)
+	facts = append(facts, fact{"has_rewrite_opentrunc", "op", has("manifest.go", "", "helpRewrite", "y.OpenTruncFile(rewritePath, false)"), "manifest.go:helpRewrite [y.OpenTruncFile(rewritePath, false)]"})
+	// C26 / C06: whether a value is inlined or referenced through a value pointer is decided ONCE per
+	// entry (Entry.skipVlogAndSetThreshold memoizes the threshold valueLog.write saw) and the
+	// StreamWriter's sorted writer and DB.writeToLSM both ask the entry, not the current (possibly
+	// moved, VLogPercentile > 0) threshold (seed C26i)
+	facts = append(facts, fact{"has_sw_threshold_memo", "op", has("stream_writer.go", "sortedWriter", "handleRequests", "e.skipVlogAndSetThreshold(w.db.valueThreshold())"), "stream_writer.go:sortedWriter.handleRequests [e.skipVlogAndSetThreshold(w.db.valueThreshold())]"})
+	facts = append(facts, fact{"has_lsm_threshold_memo", "op", has("db.go", "DB", "writeToLSM", "entry.skipVlogAndSetThreshold(db.valueThreshold())"), "db.go:DB.writeToLSM [entry.skipVlogAndSetThreshold(db.valueThreshold())]"})
 	// Txn.Commit / commitPrecheck
 	facts = append(facts, fact{"ord_commit_steps", "op", ascending("txn.go", "Txn", "Commit",
 		"len(txn.pendingWrites) == 0", "txn.commitPrecheck()", "txn.commitAndSend()"), "txn.go:Txn.Commit [order of steps]"})
